@@ -157,21 +157,21 @@ theorem converges_after_first_redirect (s : RState) (slot seed : Nat)
 theorem code_matches_model :
     Gen.Upstream.handleRedirection =
       ["err := strings.Split(string(resp.Text), \" \")",
-       "if len(err) < 3 { req.SetResponse(resp) return }",
-       "hostAddr := err[2]",
-       "switch strings.ToLower(err[0]) { case MOVED: u.stats.Counter(\"moved\").Inc() u.MakeRequestToHost(hostAddr, req) case ASK: askingReq := newSimpleRequest(newArray( *newBulkString(ASKING), )) u.MakeRequestToHost(hostAddr, askingReq) u.MakeRequestToHost(hostAddr, req) default: req.SetResponse(resp) return }",
-       "u.triggerSlotsRefresh()"] ∧
+      "if len(err) < 3 { req.SetResponse(resp) return }",
+      "hostAddr := err[2]",
+      "switch strings.ToLower(err[0]) { case MOVED: u.stats.Counter(\"moved\").Inc() u.MakeRequestToHost(hostAddr, req) case ASK: askingReq := newSimpleRequest(newArray( *newBulkString(ASKING), )) askingReq.abort = req.abort u.MakeRequestToHost(hostAddr, askingReq, req) default: req.SetResponse(resp) return }",
+      "u.triggerSlotsRefresh()"] ∧
     Gen.Upstream.getClient =
       ["c, ok := u.loadClients()[addr]",
-       "if ok { return c, nil }",
-       "v, loaded := u.createClientCalls.LoadOrStore(addr, &createClientCall{ done: make(chan struct{}), })",
-       "call := v.(*createClientCall)",
-       "if loaded { <-call.done return call.res, call.err }",
-       "c, err := u.createClient(addr)",
-       "call.res, call.err = c, err",
-       "close(call.done)",
-       "u.createClientCalls.Delete(addr)",
-       "return c, err"] ∧
+      "if ok { return c, nil }",
+      "v, loaded := u.createClientCalls.LoadOrStore(addr, &createClientCall{ done: make(chan struct{}), })",
+      "call := v.(*createClientCall)",
+      "if loaded { <-call.done return call.res, call.err }",
+      "c, err := u.createClient(addr)",
+      "call.res, call.err = c, err",
+      "close(call.done)",
+      "u.createClientCalls.Delete(addr)",
+      "return c, err"] ∧
     Gen.Upstream.createClient =
       ["u.clientsMu.Lock()",
       "select { case <-u.quit: u.clientsMu.Unlock() return nil, errors.New(upstreamExited) default: }",
@@ -192,59 +192,60 @@ theorem code_matches_model :
       "return c, nil"] ∧
     Gen.Upstream.removeClient =
       ["u.clientsMu.Lock()",
-       "defer u.clientsMu.Unlock()",
-       "u.removeClientLocked(addr)"] ∧
+      "defer u.clientsMu.Unlock()",
+      "u.removeClientLocked(addr)"] ∧
     Gen.Upstream.makeRequestToHost =
-      ["u.stats.RqTotal.Inc()",
-      "req.RegisterHook(func(req *simpleRequest) { if req.Response().Type == Error { u.stats.RqFailureTotal.Inc() } else { u.stats.RqSuccessTotal.Inc() } u.stats.RqDurationMs.Record(uint64(req.Duration() / time.Millisecond)) })",
-      "select { case <-u.quit: req.SetResponse(newError(upstreamExited)) return default: }",
+      ["for _, req := range reqs { u.stats.RqTotal.Inc() req.RegisterHook(func(req *simpleRequest) { if req.Response().Type == Error { u.stats.RqFailureTotal.Inc() } else { u.stats.RqSuccessTotal.Inc() } u.stats.RqDurationMs.Record(uint64(req.Duration() / time.Millisecond)) }) }",
+      "fail := func(msg string) { for _, req := range reqs { req.SetResponse(newError(msg)) } }",
+      "select { case <-u.quit: fail(upstreamExited) return default: }",
       "verifPause(\"upstream.request.checked\", u)",
       "c, err := u.getClient(addr)",
-      "if err != nil { u.triggerSlotsRefresh() req.SetResponse(newError(err.Error())) return }",
-      "c.Send(req)"] ∧
+      "if err != nil { u.triggerSlotsRefresh() fail(err.Error()) return }",
+      "c.Send(reqs...)"] ∧
     Gen.Upstream.triggerSlotsRefresh =
       ["select { case u.slotsRefreshCh <- struct{}{}: default: }",
-       "if u.slotsRefTriggerHook != nil { u.slotsRefTriggerHook() }"] ∧
+      "if u.slotsRefTriggerHook != nil { u.slotsRefTriggerHook() }"] ∧
     Gen.Upstream.loopRefreshSlots =
       ["u.triggerSlotsRefresh()",
-       "for { select { case <-u.quit: return case <-time.After(slotsRefFreq): case <-u.slotsRefreshCh: } u.refreshSlots() t := time.NewTimer(slotsRefMinRate) select { case <-t.C: case <-u.quit: t.Stop() return } }"] ∧
+      "for { select { case <-u.quit: return case <-time.After(slotsRefFreq): case <-u.slotsRefreshCh: } u.refreshSlots() t := time.NewTimer(slotsRefMinRate) select { case <-t.C: case <-u.quit: t.Stop() return } }"] ∧
     Gen.Upstream.refreshSlots =
       ["scope := u.stats.NewChild(\"slots_refresh\")",
-       "scope.Counter(\"total\").Inc()",
-       "err := u.doSlotsRefresh()",
-       "if err == nil { u.logger.Debugf(\"refresh slots success\") scope.Counter(\"success_total\").Inc() u.slotsLastUpdateTime = time.Now() return }",
-       "scope.Counter(\"failure_total\").Inc()",
-       "u.logger.Warnf(\"fail to refresh slots: %v, will retry...\", err)",
-       "u.triggerSlotsRefresh()",
-       "return"] ∧
+      "scope.Counter(\"total\").Inc()",
+      "err := u.doSlotsRefresh()",
+      "if err == nil { u.logger.Debugf(\"refresh slots success\") scope.Counter(\"success_total\").Inc() u.slotsLastUpdateTime = time.Now() return }",
+      "scope.Counter(\"failure_total\").Inc()",
+      "u.logger.Warnf(\"fail to refresh slots: %v, will retry...\", err)",
+      "u.triggerSlotsRefresh()",
+      "return"] ∧
     Gen.Upstream.doSlotsRefresh =
       ["v := newArray( *newBulkString(\"cluster\"), *newBulkString(\"nodes\"), )",
-       "req := newSimpleRequest(v)",
-       "addr, err := u.randomHost()",
-       "if err != nil { return err }",
-       "u.MakeRequestToHost(addr, req)",
-       "select { case <-req.done: case <-u.quit: return errors.New(upstreamExited) }",
-       "resp := req.Response()",
-       "if resp.Type == Error { return errors.New(string(resp.Text)) }",
-       "if resp.Type != BulkString { return errInvalidClusterNodes }",
-       "insts, err := parseClusterNodes(string(resp.Text))",
-       "if err != nil { return err }",
-       "for _, inst := range insts { for _, slot := range inst.Slots { if slot < 0 || slot >= slotNum { continue } u.slots[slot] = inst } }",
-       "return nil"] ∧
+      "req := newSimpleRequest(v)",
+      "req.abort = u.quit",
+      "addr, err := u.randomHost()",
+      "if err != nil { return err }",
+      "u.MakeRequestToHost(addr, req)",
+      "select { case <-req.done: case <-u.quit: return errors.New(upstreamExited) }",
+      "resp := req.Response()",
+      "if resp.Type == Error { return errors.New(string(resp.Text)) }",
+      "if resp.Type != BulkString { return errInvalidClusterNodes }",
+      "insts, err := parseClusterNodes(string(resp.Text))",
+      "if err != nil { return err }",
+      "for _, inst := range insts { for _, slot := range inst.Slots { if slot < 0 || slot >= slotNum { continue } u.slots[slot] = inst } }",
+      "return nil"] ∧
     Gen.Upstream.chooseHost =
       ["hash := crc16(hashtag(routingKey))",
-       "inst := u.slots[hash&(slotNum-1)]",
-       "if inst == nil { return u.randomHost() }",
-       "if !req.IsReadOnly() { return inst.Addr, nil }",
-       "// read-only requests var candidates []string",
-       "readStrategy := redis.ReadStrategy_MASTER",
-       "if option := u.cfg.GetRedisOption(); option != nil { readStrategy = option.ReadStrategy }",
-       "switch readStrategy { case redis.ReadStrategy_MASTER: candidates = append(candidates, inst.Addr) case redis.ReadStrategy_BOTH: candidates = append(candidates, inst.Addr) fallthrough case redis.ReadStrategy_REPLICA: for _, replica := range inst.Replicas { candidates = append(candidates, replica.Addr) } }",
-       "if len(candidates) == 0 { candidates = append(candidates, inst.Addr) }",
-       "i := 0",
-       "l := len(candidates)",
-       "if l > 1 { i = int(time.Now().UnixNano()) % l }",
-       "return candidates[i], nil"] := by
+      "inst := u.slots[hash&(slotNum-1)]",
+      "if inst == nil { return u.randomHost() }",
+      "if !req.IsReadOnly() { return inst.Addr, nil }",
+      "// read-only requests var candidates []string",
+      "readStrategy := redis.ReadStrategy_MASTER",
+      "if option := u.cfg.GetRedisOption(); option != nil { readStrategy = option.ReadStrategy }",
+      "switch readStrategy { case redis.ReadStrategy_MASTER: candidates = append(candidates, inst.Addr) case redis.ReadStrategy_BOTH: candidates = append(candidates, inst.Addr) fallthrough case redis.ReadStrategy_REPLICA: for _, replica := range inst.Replicas { candidates = append(candidates, replica.Addr) } }",
+      "if len(candidates) == 0 { candidates = append(candidates, inst.Addr) }",
+      "i := 0",
+      "l := len(candidates)",
+      "if l > 1 { i = int(time.Now().UnixNano()) % l }",
+      "return candidates[i], nil"] := by
   refine ⟨rfl, rfl, rfl, rfl, rfl, rfl, rfl, rfl, rfl, rfl⟩
 
 end SamVerif.Props.C07
